@@ -980,7 +980,9 @@ MUTANTS = [
 # differential replay bounded/chars_mutants.py (under /venv/bin/python, no z3) reads the same list
 from .mutants_chars import MUTANTS as _CHARS_TABLE, CSV_MUTANTS as _CHARS_CSV      # noqa: E402
 
-MUTANTS = MUTANTS + _CHARS_TABLE + _CHARS_CSV
+from .mutants_bin import MUTANTS as _BIN          # noqa: E402   bitsets through the text bin(n) (contracts/bitsets_bin.py); replay: bounded/bin_mutants.py
+
+MUTANTS = MUTANTS + _CHARS_TABLE + _CHARS_CSV + _BIN
 
 
 def _one(job):
